@@ -38,6 +38,7 @@ class Ctx:
         self.varsh = {}
         self.timeout = P_TIMEOUT_MS
         self.feas_timeout = 10000
+        self.skip_unknown = False   # harness option: do not explore branches whose feasibility z3 cannot decide
         self.deadline = None      # wall-clock budget of the current configuration
         self.reset_path()
         self.prefix = []
@@ -242,9 +243,9 @@ def decide(t, sh=None):
         other = check(pc + rel + [z3.Not(t) if first else t], timeout=ft)
         C.path.append((first, t))
         C.decided[tid] = first
-        if other != 'unsat':
-            if other == 'unknown':
-                C.stats['feas_unknown'] = C.stats.get('feas_unknown', 0) + 1
+        if other == 'unknown':
+            C.stats['feas_unknown'] = C.stats.get('feas_unknown', 0) + 1
+        if other == 'sat' or (other == 'unknown' and not C.skip_unknown):
             C.pending.append([d for d, _ in C.path[:-1]] + [not first])
         return first
     rT = check(pc + rel + [t], timeout=ft)
@@ -252,8 +253,13 @@ def decide(t, sh=None):
     if rT == 'unknown' or rF == 'unknown':
         # undecided feasibility: explore the side anyway (sound, see above); counted in the evidence
         C.stats['feas_unknown'] = C.stats.get('feas_unknown', 0) + 1
-        rT = 'sat' if rT == 'unknown' else rT
-        rF = 'sat' if rF == 'unknown' else rF
+        if C.skip_unknown and 'sat' in (rT, rF):
+            # follow only the side known to be feasible; the other is counted as unexplored
+            rT = 'unsat' if rT == 'unknown' else rT
+            rF = 'unsat' if rF == 'unknown' else rF
+        else:
+            rT = 'sat' if rT == 'unknown' else rT
+            rF = 'sat' if rF == 'unknown' else rF
     if rT == 'sat' and rF == 'sat':
         first = True if sh is None else bool(sh)
         C.path.append((first, t))
@@ -591,6 +597,16 @@ class R:
         if self.c is not None and o.c is not None:
             return B(_PYOPS[op](self.c, o.c))
         sh = None if self.sh is None or o.sh is None else _PYOPS[op](self.sh, o.sh)
+        # sqrt(t) compared with 0 is a statement about t (keeps the algebraic atom out of branch conditions)
+        if o.c is not None and o.c == 0 and not self.d and self._n is not None and self._n.get_id() in C.sqrt_args:
+            arg = C.sqrt_args[self._n.get_id()]
+            if op == 'ge':
+                return B(True)
+            if op == 'lt':
+                return B(False)
+            return arg._cmp(ZERO, {'gt': 'gt', 'le': 'le', 'eq': 'eq', 'ne': 'ne'}[op])
+        if self.c is not None and self.c == 0 and not o.d and o._n is not None and o._n.get_id() in C.sqrt_args:
+            return o._cmp(self, {'lt': 'gt', 'le': 'ge', 'gt': 'lt', 'ge': 'le', 'eq': 'eq', 'ne': 'ne'}[op])
         return B(_Z3OPS[op](self.t, o.t), sh)
 
     def __lt__(self, o): return self._cmp(o, 'lt')
@@ -662,6 +678,11 @@ class R:
         if self.c is not None and self.c == 0:
             return ONE
         return make_atom('exp', self)
+
+    # numpy scalar look-alike attributes (np.float64 has them; library code asks e.g. variances.ndim)
+    ndim = 0
+    shape = ()
+    size = 1
 
     # numpy calls these names for object arrays
     def conjugate(self):
